@@ -2,10 +2,10 @@ package main
 
 import (
 	"encoding/json"
-	"os/exec"
 	"flag"
 	"fmt"
 	"os"
+	"os/exec"
 	"path/filepath"
 	"sort"
 	"strings"
@@ -626,7 +626,7 @@ func writeEvidence(prop, tier, verif string, seed int, out *checkOutcome, perObl
 	level := "proof"
 	cov := map[string]any{
 		"obligations": total, "discharged": discharged,
-		"checker_cmd": fmt.Sprintf("/verif/check %s --tier %s  (govc check -prop %s -tier %s; per-obligation SMT-LIB files under /verif/out/smt/%s)", prop, tier, prop, tier, prop),
+		"checker_cmd":  fmt.Sprintf("/verif/check %s --tier %s  (govc check -prop %s -tier %s; per-obligation SMT-LIB files under /verif/out/smt/%s)", prop, tier, prop, tier, prop),
 		"trusted_base": trustedBase, "functions_under_contract": fns, "per_obligation": perObl,
 		"solver_time_s": round3(solverTime), "discharged_by_solver": bySolver, "samples": samples,
 		"translation_failures": translationFailures,
